@@ -47,7 +47,7 @@ def run(ctx, rep):
             default = 'dflt'
         elif dmode == 'undefined':
             default = 'nope'
-        targets = names + ['u0', 'u1']
+        targets = names + ['u0', 'u1'] + (['dflt'] if dmode == 'defined' else [])
         # aliases
         r_alias = dict(rules)
         for t in targets:
@@ -92,6 +92,17 @@ def run(ctx, rep):
                                  'rule:%s decides %s but enforcing %s decides %s (roles %r; rules %r, default %r)'
                                  % (name, b, name, a, creds_list[j]['roles'], sc['rules'], sc['default']),
                                  {'rules': sc['rules'], 'default': sc['default'], 'name': name, 'creds': creds_list[j]})
+            # a reference to an undefined name: the default rule if usable, otherwise deny
+            if sc['default'] is None or isinstance(sc['default'], str):
+                for u in ('u0', 'u1'):
+                    for j in range(nc):
+                        got = via[t.index(u) * nc + j]
+                        want = direct[t.index('dflt') * nc + j] if sc['default'] == 'dflt' else 'deny'
+                        if got != want:
+                            rep.fail('undef:%r:%s' % (sorted(sc['rules'].items()), u),
+                                     'rule:%s (undefined) decides %s; the default rule %r decides %s (roles %r; rules %r)'
+                                     % (u, got, sc['default'], want, creds_list[j]['roles'], sc['rules']),
+                                     {'rules': sc['rules'], 'default': sc['default'], 'name': u, 'creds': creds_list[j]})
             rep.case(key=repr(sorted(sc['rules'].items())), nontrivial=len(set(outs)) > 1, n=len(outs),
                      sample={'rules': sc['rules'], 'default': sc['default']})
         elif kind == 'orig':
